@@ -136,18 +136,21 @@ Proof.
       exists sz, vnF. refine (conj eq_refl (conj _ (conj _ _))).
       * rewrite (operand_eqb_oval s sz nF) by assumption. exact HnF.
       * intros j Hj. rewrite (Hb j Hj). unfold src_of. ceqb. reflexivity.
-      * intros Hne q vq Hq Hv. unfold region_of in Hal. destruct (cert_op C x') as [[rg kx]|] eqn:Cx; try discriminate.
-        destruct (cert_op_val C s x' rg kx vsF HI Cx Ox') as [A1 _].
-        destruct rg as [rg|]; [|exfalso; apply Hne; exact A1].
+      * intros Hne q vq Hq Hv.
         rewrite forallb_forall in Hal. destruct (ovals_nth s _ _ _ _ Hall Hv) as [oq [Hoq Hvq]].
         specialize (Hal (oq, None) (nth_combine _ _ _ _ _ Hoq Hq)). cbn [fst snd] in Hal.
-        assert (Hal2 : (exists l, oq = OLab l) \/ match region_of C oq with Some r => negb (oeqb r (Some rg)) | None => false end = true).
-        { destruct oq; eauto. }
-        clear Hal. destruct Hal2 as [[l ->]|Hal]. { cbn in Hvq. inversion Hvq. rewrite A1. cbn. discriminate. }
-        unfold region_of in Hal.
-        destruct (cert_op C oq) as [[rq kq]|] eqn:Cq; try discriminate.
-        destruct (cert_op_val C s oq rq kq vq HI Cq Hvq) as [B1 _]. rewrite A1, B1. intros E. rewrite E in Hal.
-        cbn in Hal. rewrite Z.eqb_refl in Hal. discriminate.
+        destruct oq as [z|y|l]; [| |cbn in Hvq; inversion Hvq; cbn; intros E0; apply Hne; symmetry; exact E0].
+        -- (* a literal: plain *)
+           cbn in Hvq. inversion Hvq. cbn. intros E0. apply Hne. symmetry. exact E0.
+        -- unfold region_of in Hal.
+           destruct (cert_op C x') as [[rg kx]|] eqn:Cx.
+           ++ destruct (cert_op_val C s x' rg kx vsF HI Cx Ox') as [A1 _].
+              destruct rg as [rg|]; [|exfalso; apply Hne; exact A1].
+              destruct (cert_op C (OVar y)) as [[rq kq]|] eqn:Cq; try discriminate.
+              destruct (cert_op_val C s (OVar y) rq kq vq HI Cq Hvq) as [B1 _]. rewrite A1, B1. intros E0. rewrite E0 in Hal.
+              cbn in Hal. rewrite Z.eqb_refl in Hal. discriminate.
+           ++ destruct (cert_op C (OVar y)) as [[[rq|] kq]|] eqn:Cq; try discriminate.
+              destruct (cert_op_val C s (OVar y) None kq vq HI Cq Hvq) as [B1 _]. rewrite B1. intros E0. apply Hne. symmetry. exact E0.
 Qed.
 
 Lemma ann_eqb_eq a b : ann_eqb a b = true -> a = b.
